@@ -37,7 +37,7 @@ CLAIMED = {
         note='trusts z3, symx, the bank-table transcription; configurations enumerated (sec, nosec, sec+virt)'),
     'C11': dict(
         text='Every exception-entry function (undef, svc, smc, data abort, irq, fiq, hyp trap, reset) is executed from an '
-             'arbitrary symbolic state (whole CPSR, PC, SCTLR.{V,VE,TE,EE,NMFI}, all SCR bits, HCR routing bits, '
+             'arbitrary symbolic state (whole CPSR incl. J in Thumb state = ThumbEE, PC, SCTLR.{V,VE,TE,EE,NMFI}, all SCR bits, HCR routing bits, '
              'HSCTLR, vector base registers) and the full post-state is compared with the B1.9 pseudocode incl. frame; '
              'dispatch through the real emulate_cycle by SVC/SMC/UDF/BKPT/alignment-faulting LDREX/LDRD rows in ARM and '
              'Thumb state with arbitrary ITSTATE.',
@@ -52,7 +52,9 @@ CLAIMED = {
     'C16': dict(
         text='One hub operation from an arbitrary hub state: up to 3 controllers with symbolic beginnings and contents '
              '(adjacent/gapped/overlapping), symbolic address and value, sizes 1,2,4,8: result, exact footprint, '
-             'first-match priority, unmapped=0, no host error, device length invariant (inductive over histories).',
+             'first-match priority, unmapped=0, no host error, device length invariant (inductive over histories); '
+             'two accesses in a row at independent symbolic addresses, with controllers un-registered or re-ordered in '
+             'between: the second access depends on the controller list and device bytes only, not on the history.',
         ref='DESIGN.md 6/C16',
         note='trusts z3, symx and the models of struct.pack/unpack and bytearray slicing; device sizes enumerated'),
     'C02': dict(
@@ -108,8 +110,8 @@ CLAIMED = {
     'C12': dict(
         text='cpsr_write_by_instr / spsr_write_by_instr with value, byte mask, whole CPSR, SCR.{NS,AW,FW}, NMFI, RFR '
              'symbolic vs B1.3.3 + direct statements; every system-family row (MRS/MSR/CPS/SETEND/SUBS PC,LR/ERET, '
-             'coprocessor gating with CPACR/NSACR symbolic, barriers, preloads) and hint / exception-generating rows '
-             'through emulate_cycle.',
+             'coprocessor gating with CPACR/NSACR symbolic -- also with the Virtualization Extensions in every mode incl. '
+             'Hyp, HCPTR symbolic -- barriers, preloads) and hint / exception-generating rows through emulate_cycle.',
         ref='DESIGN.md 6/C12', note='known finding F014 (MRS CPSR in privileged modes) excluded by region, still reported'),
     'C14': dict(
         text='translate_address_p/check_permission/data_abort with k (<=2 quick, <=3 thorough) fully symbolic MPU '
@@ -123,9 +125,14 @@ CLAIMED = {
     'C15': dict(
         text='translate_address_v with the page tables = the symbolic memory array, TTBR0/1, TTBCR, DACR, SCTLR.{AFE,EE}, '
              'FCSE PID, PRRR/NMRR, address symbolic: PA(40 bit), NS, memory type/attributes or fault with DFSR.{FS,'
-             'domain,WnR}/DFAR vs the B3 short-descriptor oracle; MMU off flat.',
-        ref='DESIGN.md 6/C15', note='TRE=1, no hardware AF update, no LPAE/stage 2 (repository stubs); quick fixes N and '
-                                    'an injective remap setting'),
+             'domain,WnR}/DFAR vs the B3 short-descriptor oracle; MMU off flat. Long-descriptor stage-1 walks (LPAE '
+             'configuration, TTBCR.EAE = 1): TTBR0/1 (40 bit), EPD0/1, MAIR0/1, every 64-bit descriptor and the address '
+             'symbolic, T0SZ/T1SZ enumerated: TTBR selection, start level, table/block/page descriptors at levels 1-3, '
+             'hierarchical table attributes, access flag, AP[2:1], PA(40 bit), NS, MAIR decode and shareability vs the '
+             'B3.19.6 oracle; a walk succeeds exactly when the oracle reports no fault.',
+        ref='DESIGN.md 6/C15 and 14.8', note='TRE=1, no hardware AF update, no stage 2 / Hyp stage 1; long-descriptor '
+                                    'fault reports end in a repository stub (only "faults here, nothing else changed" is '
+                                    'claimed for them); quick fixes N / T0SZ,T1SZ pairs and injective remap / MAIR settings'),
     'C18': dict(
         text='emulate_cycle over the whole instruction space in shards (ARM bits 27:20; Thumb-16 bits 15:8; Thumb-32 '
              'hw1[12:4]) with every other bit and the whole machine state symbolic, UNPREDICTABLE included: no host '
@@ -142,7 +149,7 @@ CLAIMED = {
         text='Scratch state havocked before steps (determinism / snapshot independence), reflection-based check that no '
              'module-level object is written, and isolation with a foreign instance created between construction and '
              'step (equal configuration: unaffected; different configuration: known finding F015); history before a '
-             'snapshot (same bits executed in the other instruction set) and construction after a foreign instance '
+             'snapshot (same bits executed in the other instruction set, or in the same one from unrelated flags / IT state) and construction after a foreign instance '
              'with symbolic configured reset values leave the instance in its solo state.',
         ref='DESIGN.md 6/C20', note='thread schedules outside the technique'),
 }
